@@ -174,7 +174,9 @@ pub fn enum_total(kind: &str, thorough: bool) -> u64 {
 }
 
 const REMNANT_ALPHABET: [char; 18] = ['a', 'i', '\'', '"', '*', '?', '=', '>', '<', '-', '.', '1', '(', ')', ' ', 'é', '\u{130}', '\u{b}'];
-const INSERTS: [&str; 34] = [
+const INSERTS: [&str; 44] = [
+    // numbers at and beyond the 64-bit boundaries, odd number syntax, non-ASCII digits
+    "9223372036854775808", "99999999999999999999", "9223372036854775807", "-1", "1.2.3", "1e5", "²", "٣", "18446744073709551616", "0.",
     "'", "\"", "-", "=", "==", "(", ")", ",", "é", "日", "🦀", "\u{0}", "\n", " ", "*", "?", "i", ".", "[", "]", "#", ">", "<=", "\t",
     // characters whose lower/upper case form has another UTF-8 length, and other whitespace
     "\u{130}", "\u{212a}", "\u{1e9e}", "\u{212b}", "\u{2126}", "\u{b}", "\u{c}", "\r", "\u{a0}", "\u{2028}",
